@@ -171,17 +171,26 @@ func execC07(p *drv.Plan) *Out {
 	hooks := drv.Hooks{
 		Prop: "C07",
 		After: func(w *drv.World, s drv.Step) *drv.Violation {
-			if !w.Fast {
-				return nil
-			}
+			// The reads are audited on index-less handles too: such a handle does
+			// not maintain the index, so nothing it answers may come from the
+			// (stale) index an earlier process left behind (seed C07-3B).
 			keys := w.ProbeKeys()
 			if v := w.AuditWorking("C07", "C07.reads", keys); v != nil {
+				if !w.Fast {
+					v.Class += "/index-off"
+				}
 				return v
 			}
 			for _, ver := range w.M.Versions() {
 				if v := w.AuditVersion("C07", "C07.reads", ver, keys); v != nil {
+					if !w.Fast {
+						v.Class += "/index-off"
+					}
 					return v
 				}
+			}
+			if !w.Fast {
+				return nil
 			}
 			if isStructural(s.Op) && s.Op != drv.OpDiscard {
 				raw++
